@@ -3,7 +3,9 @@ C05 — the note array is a faithful table of the score.
 
 Theorems over Model/NoteArray.lean (helper lemmas in Proofs/C05*.lean).  The part's time,
 signature and measure maps are parameters of the model (`Part.maps`): the statements say which
-map value, at which time, sits in which column.
+map value, at which time, sits in which column.  Props/C05Compose.lean instantiates the maps with the
+C02 / C10 models (and holds the entry-point and float32 statements), Props/C05Collapse.lean is about
+`collapse=True`.
 -/
 import PartituraModel.Proofs.C05Rows
 import PartituraModel.Proofs.C05Merge
